@@ -977,8 +977,8 @@ Proof.
   - destruct v as [s M e|s|]; cbn [fneg]; [| |discriminate].
     + rewrite !andb_true_iff. intros (Hc & Hnear & _). split; [exact Hc|split; [exact Hnear|]].
       cbn [Z.abs Z.mul] in Hnear.
-      rewrite (near_zero_M f Hf M e _ Hnear (proj1 (canonb_spec f M e Hf) Hc) ltac:(reflexivity)). reflexivity.
-    + cbn [Z.abs Z.mul]. rewrite (overflows_pos f _ Hf ltac:(reflexivity)). discriminate.
+      rewrite (near_zero_M f M e _ Hnear (proj1 (canonb_spec f M e Hf) Hc) ltac:(reflexivity)). reflexivity.
+    + cbn [Z.abs Z.mul]. rewrite (overflows_pos f (Zpos d) Hf ltac:(reflexivity)). discriminate.
   - assert (Hs : (- n <? 0) = negb (n <? 0)).
     { destruct (n <? 0) eqn:E; [apply Z.ltb_lt in E; apply Z.ltb_ge; lia|apply Z.ltb_ge in E; apply Z.ltb_lt; lia]. }
     destruct v as [s M e|s|]; cbn [fneg]; [| |discriminate]; rewrite Hs.
@@ -1056,4 +1056,80 @@ Proof.
   subst v'. apply (kfloat_match f64 k _ o Hnan) in Hm. rewrite Hb in Hm.
   cbn [spec_holds fmt_of]. exists bits, (fneg_if neg v). split; [exact Hm|split; [exact Hd|]].
   apply is_nearest_sound; [exact f64_ok|exact Hn].
+Qed.
+
+Lemma kind_of_ann_none a : kind_of_ann a = None -> a = ANone.
+Proof. destruct a; cbn; congruence. Qed.
+
+Lemma signed_suffix_false a k : kind_of_ann a = Some k -> int_kind k = None -> signed_suffix a = false.
+Proof. destruct a; cbn; try congruence. intros [= ->] ->. reflexivity. Qed.
+
+Lemma float_kind_true k : float_kind k = Some true -> String.eqb k "f32" = true.
+Proof.
+  unfold float_kind. destruct (String.eqb k "f64"); [discriminate|]. destruct (String.eqb k "f32"); [reflexivity|discriminate].
+Qed.
+
+Lemma float_kind_int k w : float_kind k = Some w -> int_kind k = None.
+Proof.
+  intros H. destruct (int_kind k) as [sb|] eqn:E; [|reflexivity].
+  rewrite (int_kind_not_float _ _ E) in H. discriminate.
+Qed.
+
+Lemma holds_decimal (neg : bool) b a o :
+  (is_int_body b = true \/ exists w f, b = BFloat w f) ->
+  kf_name (LReal neg b a) = None -> predicted (LReal neg b a) o = true -> C13_spec (LReal neg b a) o.
+Proof.
+  intros Hform Hkf Hp. apply predicted_spec in Hp.
+  unfold C13_spec, expected, expected_real.
+  destruct (body_gram b) eqn:Hg; [|exact I|exact I].
+  destruct (andb _ (negb (is_int_body b))); [exact I|].
+  assert (Hfe : frac_exp b = false) by (destruct Hform as [Hi|(w & f & ->)]; [destruct b; try discriminate|]; reflexivity).
+  rewrite Hfe.
+  assert (Hnr : forall X Y : expect, match b with BRat n d => X | _ => Y end = Y)
+    by (intros; destruct Hform as [Hi|(w & f & ->)]; [destruct b; try discriminate|]; reflexivity).
+  assert (Hbody : forall (X : string -> string -> expect) (Y : expect),
+             match b with BRat n d => X n d | _ => Y end = Y)
+    by (intros; destruct Hform as [Hi|(w & f & ->)]; [destruct b; try discriminate|]; reflexivity).
+  rewrite Hbody. clear Hnr Hbody.
+  unfold denote. destruct (body_Q b) as [q|] eqn:Hq; [|exact I]. cbn [option_map].
+  assert (Hpreds : signed_suffix a = false ->
+            impl_preds (LReal neg b a) =
+            match kind_of_ann a with
+            | None => map (fun v => kfloat f64 "f64" (fneg_if neg v)) (impl_f64_abs b)
+            | Some k =>
+                match float_kind k, int_kind k with
+                | Some false, _ => map (fun v => kfloat f64 k (fneg_if neg v)) (impl_f64_abs b)
+                | Some true, _ =>
+                    flat_map (fun v => map (fun w => kfloat f32 k (fneg_if neg w)) (opt_list (fconv f32 f64 v))) (impl_f64_abs b)
+                | None, Some sb =>
+                    if is_define a
+                    then map (fun v => PVal (KS k (Zx (fcast_int f64 sb (fneg_if neg v))))) (impl_f64_abs b)
+                    else map (fun v => PVal (KS k (Zx ((if neg then -1 else 1) * fcast_int f64 sb v)))) (impl_f64_abs b)
+                | None, None => []
+                end
+            end).
+  { intros Hss. cbn [impl_preds]. rewrite Hss.
+    destruct Hform as [Hi|(w & f & ->)]; [destruct b; try discriminate|]; reflexivity. }
+  destruct (kind_of_ann a) as [k|] eqn:Hk.
+  - destruct (float_kind k) as [w32|] eqn:Hfk.
+    + pose proof (float_kind_int _ _ Hfk) as Hik.
+      rewrite (Hpreds (signed_suffix_false a k Hk Hik)) in Hp.
+      destruct w32.
+      * (* f32: a known-finding class *)
+        exfalso. apply float_kind_true in Hfk. cbn [kf_name] in Hkf. rewrite Hk, Hik, Hfk in Hkf.
+        destruct Hform as [Hi|(w & f & ->)]; [destruct b; try discriminate|]; discriminate.
+      * eapply decimal_pred_ok; eassumption.
+    + destruct (int_kind k) as [sb|] eqn:Hik; [|exact I].
+      destruct (body_Z b) as [n|] eqn:Hbz; [|exact I].
+      exfalso. cbn [kf_name] in Hkf. rewrite Hk, Hik, Hbz in Hkf.
+      destruct Hform as [Hi|(w & f & ->)]; [destruct b; try discriminate|discriminate].
+      destruct (andb (fst sb) (is_suffix a)); [discriminate|]. destruct (andb neg _); discriminate.
+  - apply kind_of_ann_none in Hk. subst a. rewrite (Hpreds eq_refl) in Hp.
+    assert (E : match body_Z b with
+                | Some n => if is_based b then XInt "i64" i64sb (if neg then - n else n) else XNear false "f64" (Qneg_if neg q)
+                | None => XNear false "f64" (Qneg_if neg q)
+                end = XNear false "f64" (Qneg_if neg q)).
+    { destruct (body_Z b); [|reflexivity].
+      destruct Hform as [Hi|(w & f & ->)]; [destruct b; try discriminate|]; reflexivity. }
+    rewrite E. eapply decimal_pred_ok; eassumption.
 Qed.
